@@ -209,6 +209,7 @@ func injectSSOFault(r *rand.Rand, rec *sim.Response, now time.Time, f string) st
 }
 
 func runC03(c *mon.Ctx) {
+	runLookalikeAttrs(c, c.N(48, 600), []string{"Recipient", "Destination", "Version", "NotOnOrAfter(confirmation)"})
 	now := BaseTime(c.Seed)
 	w := NewWorld(now)
 	pool := &SPPool{}
